@@ -63,6 +63,7 @@ type FuncSpec struct {
 	Nilable  map[string]bool
 	Flows    map[string][]string
 	AssignsNone bool
+	Holds    []string
 	Trusted  bool
 	Pure     bool
 	NoSafety bool // do not emit zero-annotation safety obligations
@@ -122,7 +123,7 @@ var clauseKeywords = map[string]bool{
 	"props": true, "trusted": true, "pure": true, "requires": true, "ensures": true,
 	"modifies": true, "ghost": true, "use": true, "on": true, "after": true, "before": true,
 	"loop": true, "invariant": true, "decreases": true, "nonnil": true, "lock": true,
-	"lockinv": true, "guarantee": true, "rely": true, "fresh": true, "exit": true, "flows": true, "assigns": true, "assumes": true, "nilable": true, "nosafety": true, "using": true,
+	"lockinv": true, "guarantee": true, "rely": true, "fresh": true, "exit": true, "flows": true, "assigns": true, "assumes": true, "holds": true, "nilable": true, "nosafety": true, "using": true,
 }
 
 type rawClause struct {
@@ -163,6 +164,9 @@ func readClauses(path string, requirePrefix bool) ([]rawClause, error) {
 		kw := t
 		if j := strings.IndexAny(t, " \t{"); j >= 0 {
 			kw = t[:j]
+		}
+		if kw == "exit:" {
+			kw = "exit"
 		}
 		if clauseKeywords[kw] {
 			out = append(out, rawClause{kw: kw, rest: strings.TrimSpace(t[len(kw):]), line: i + 1})
@@ -329,6 +333,11 @@ func parseContractFile(path string, requirePrefix bool) (*ContractFile, error) {
 				return nil, errf(rc, "modifies outside func")
 			}
 			curF.Modifies = append(curF.Modifies, splitNames(rc.rest)...)
+		case "holds":
+			if curF == nil {
+				return nil, errf(rc, "holds outside func")
+			}
+			curF.Holds = append(curF.Holds, splitNames(rc.rest)...)
 		case "assigns":
 			if curF == nil {
 				return nil, errf(rc, "assigns outside func")
